@@ -220,6 +220,10 @@ class URLInfo(object):
 
         info.resource = resource
 
+        # Build the normalized URL now: user info that cannot be encoded
+        # (lone surrogates) is a ValueError here, not later in ``url``.
+        info.url
+
         return info
 
     @classmethod
